@@ -5,7 +5,7 @@
    round-trips (Python's contract), the GPX/XML layer and the network CSV layer (oracle streams only); the WKT layer is proved at the
    level of tokens (C13_wkt_tokens). *)
 From Coq Require Import List Ascii String ZArith QArith Qabs Bool Lia.
-From TL Require Import Model.TextFmt Proofs.Columns Proofs.TimeText Model.CsvText Model.WktText Proofs.FixedText Proofs.CsvLine Proofs.CsvFile Proofs.WktText.
+From TL Require Import Model.TextFmt Proofs.Columns Proofs.TimeText Model.CsvText Model.WktText Proofs.FixedText Proofs.CsvLine Proofs.CsvFile Proofs.WktText Model.NetText Proofs.NetText.
 Import ListNotations.
 Close Scope Z_scope.
 Close Scope Q_scope.
@@ -64,6 +64,19 @@ Proof. exact (wkt_roundtrip pts). Qed.
 Print Assumptions C13_wkt_tokens.
 
 (* non-vacuity: a real line, with permuted columns, meets the hypotheses *)
+(* network CSV: one edge line read by the model of csv.reader (quoted geometry field) and wktLineStringToObs gives back the edge ... *)
+Theorem C13_network_line sep e : sep <> dq -> edge_ok sep e -> read_edge sep (net_line sep e) = Some e.
+Proof. exact (net_line_roundtrip sep e). Qed.
+Print Assumptions C13_network_line.
+(* ... and a whole file, with or without header line, gives back its edges: as many, in the same order, each with its identifier, end nodes,
+   orientation and geometry tokens (hence the same set of nodes) *)
+Theorem C13_network_file h sep es : sep <> dq -> differs nl sep = true -> Forall (edge_ok sep) es ->
+  read_net h sep (write_net h sep es) = map Some es.
+Proof. exact (net_file_roundtrip h sep es). Qed.
+Print Assumptions C13_network_file.
+Example C13_network_example : edge_ok "," {| e_id := "e0"; e_src := "n1"; e_tgt := "n2"; e_dir := "-1"; e_pts := [("1.5", "-2e-05"); ("3.0", "4.25")] |}.
+Proof. exact edge_ok_ex. Qed.
+
 Example C13_example :
   let t := mk 29 2 2020 23 59 59 in
   distinct (ids_of 1 0 (Some 3) (Some 2)) = true /\ sep_ok ";" = true /\ stamp_ok t /\
